@@ -111,3 +111,6 @@ func Settle() {}
 
 // GuardField: the object the field obj.<field> refers to is guarded by the mutex in muOwner.<muField> (unexported fields allowed).
 func GuardField(obj interface{}, field string, muOwner interface{}, muField string, what string) {}
+
+// WakeAll (models only): threads that yielded while waiting for this goroutine may run again.
+func WakeAll() {}
